@@ -28,6 +28,9 @@ def dispatch(pid: str, tier: str) -> int:
     if pid in ('C04', 'C10', 'C11', 'C12'):
         from harness import check_query
         return getattr(check_query, pid.lower())(tier)
+    if pid in ('C01', 'C02', 'C03', 'C20'):
+        from harness import check_lmf
+        return getattr(check_lmf, pid.lower())(tier)
     raise MachineryError(f'no check for {pid}')
 
 
